@@ -42,11 +42,13 @@ func init() {
 				// the codec workers are single-goroutine: a small GOMAXPROCS keeps 16 children from fighting over GC threads
 				{Name: "codec", Shards: 16, Timeout: tierDur(tier, 6, 40), Env: []string{"GOMAXPROCS=2"}},
 				{Name: "codec-race", Race: true, Shards: 8, Timeout: tierDur(tier, 6, 40), Env: []string{"GOMAXPROCS=2"}},
+				// on-the-wire half (c03_wire.go): socket bytes of a real connection vs ToBytes / reference frames
+				{Name: "wire", Race: true, Shards: 8, Timeout: tierDur(tier, 6, 40), HangIsViolation: true},
 			}
 		},
 		Worker: c03Worker,
 		RequiredEvents: []string{"data_accepted", "data_rejected_stream", "data_rejected_wbit", "data_rejected_body_error", "data_roundtrips",
-			"control_checked", "reject_raw_checked", "chain_steps", "derive_builds", "derive_rejected"},
+			"control_checked", "reject_raw_checked", "chain_steps", "derive_builds", "derive_rejected", "wire_data_frames_compared", "wire_control_frames_compared"},
 	})
 }
 
